@@ -59,9 +59,115 @@ func runActionList(w *evict.World, actions []int64) {
 
 var lastEvictLaw []int64
 
-func runEvictCycle(in []int64) ([]int64, []int64) {
+// ---- C02's own wire format of an evict case (model side: C02/Entry.v dEvictSpec) ----
+//
+//	eps, nodes, jobs (id queue min rolemins), tasks      -- what the model reads
+//	L, then L integers                                    -- read by the Go side only:
+//	    queues (id open weight capcpu capmem reclaimable), per job (phase priority kube-system),
+//	    per task (priority class), tiers of (kind pre rec), actions, fault script (task node)
+//
+// It is independent of harness/internal/evict's Spec.Enc (which belongs to C04 and changes with
+// it).  Fields of evict.Spec that are not listed here are not carried: a case is always run from
+// these tokens, so such features are switched off for this stream -- in particular refused
+// evictions (the documented limit of the theorem; C07's), queue guarantee / deserved amounts and
+// the capacity plugin (plugin kinds other than gang, priority, conformance, proportion are dropped
+// from the tiers).
+func encEvictCase(c evict.Spec) []int64 {
+	out := []int64{sched.EpsUnits, int64(len(c.Nodes))}
+	for _, n := range c.Nodes {
+		out = append(out, n.ID, vh.B(n.Has), n.CPU, n.Mem, n.Pods, n.GPU)
+	}
+	out = append(out, int64(len(c.Jobs)))
+	for _, j := range c.Jobs {
+		out = append(out, j.ID, j.Queue, j.Min, int64(len(j.RoleMin)))
+		for _, rm := range j.RoleMin {
+			out = append(out, rm[0], rm[1])
+		}
+	}
+	out = append(out, int64(len(c.Tasks)))
+	for _, t := range c.Tasks {
+		out = append(out, t.ID, t.Job, t.Role, t.Prio, t.CPU, t.Mem, t.GPU, t.Status, t.Node, vh.B(t.Preemptable))
+	}
+	tail := []int64{int64(len(c.Queues))}
+	for _, q := range c.Queues {
+		tail = append(tail, q.ID, vh.B(q.Open), q.Weight, q.CapCPU, q.CapMem, c.QRecl[q.ID])
+	}
+	for _, j := range c.Jobs {
+		tail = append(tail, c.PGPhase[j.ID], c.JPrio[j.ID], vh.B(c.JSys[j.ID]))
+	}
+	for _, t := range c.Tasks {
+		tail = append(tail, c.TClass[t.ID])
+	}
+	tiers := [][]evict.Plug{}
+	for _, t := range c.Tiers {
+		keep := []evict.Plug{}
+		for _, p := range t {
+			if p.Kind >= evict.KGang && p.Kind <= evict.KProp {
+				keep = append(keep, p)
+			}
+		}
+		tiers = append(tiers, keep)
+	}
+	tail = append(tail, int64(len(tiers)))
+	for _, t := range tiers {
+		tail = append(tail, int64(len(t)))
+		for _, p := range t {
+			tail = append(tail, p.Kind, vh.B(p.Pre), vh.B(p.Rec))
+		}
+	}
+	tail = append(tail, int64(len(c.Actions)))
+	tail = append(tail, c.Actions...)
+	tail = append(tail, int64(len(c.Faults)))
+	for _, f := range c.Faults {
+		tail = append(tail, f[0], f[1])
+	}
+	out = append(out, int64(len(tail)))
+	return append(out, tail...)
+}
+
+func decEvictCase(in []int64) evict.Spec {
 	r := &sched.Tok{T: in}
-	spec := evict.DecSpec(r)
+	c := evict.Spec{PGPhase: map[int64]int64{}, JPrio: map[int64]int64{}, JSys: map[int64]bool{}, TClass: map[int64]int64{}, QRecl: map[int64]int64{},
+		QGuar: map[int64][2]int64{}, QDes: map[int64][2]int64{}}
+	_ = r.Next()
+	r.List(func() {
+		c.Nodes = append(c.Nodes, sched.NodeSpec{ID: r.Next(), Has: r.Bool(), CPU: r.Next(), Mem: r.Next(), Pods: r.Next(), GPU: r.Next()})
+	})
+	r.List(func() {
+		j := sched.JobSpec{ID: r.Next(), Queue: r.Next(), Min: r.Next()}
+		r.List(func() { j.RoleMin = append(j.RoleMin, [2]int64{r.Next(), r.Next()}) })
+		c.Jobs = append(c.Jobs, j)
+	})
+	r.List(func() {
+		c.Tasks = append(c.Tasks, sched.TaskSpec{ID: r.Next(), Job: r.Next(), Role: r.Next(), Prio: r.Next(), CPU: r.Next(), Mem: r.Next(),
+			GPU: r.Next(), Status: r.Next(), Node: r.Next(), Preemptable: r.Bool()})
+	})
+	if int(r.Next()) != len(in)-r.I {
+		panic("evict case: the Go-only block does not end with the input")
+	}
+	r.List(func() {
+		q := sched.QueueSpec{ID: r.Next(), Open: r.Bool(), Weight: r.Next(), CapCPU: r.Next(), CapMem: r.Next()}
+		c.QRecl[q.ID] = r.Next()
+		c.Queues = append(c.Queues, q)
+	})
+	for _, j := range c.Jobs {
+		c.PGPhase[j.ID], c.JPrio[j.ID], c.JSys[j.ID] = r.Next(), r.Next(), r.Bool()
+	}
+	for _, t := range c.Tasks {
+		c.TClass[t.ID] = r.Next()
+	}
+	r.List(func() {
+		t := []evict.Plug{}
+		r.List(func() { t = append(t, evict.Plug{Kind: r.Next(), Pre: r.Bool(), Rec: r.Bool()}) })
+		c.Tiers = append(c.Tiers, t)
+	})
+	c.Actions = r.Ints()
+	r.List(func() { c.Faults = append(c.Faults, [2]int64{r.Next(), r.Next()}) })
+	return c
+}
+
+func runEvictCycle(in []int64) ([]int64, []int64) {
+	spec := decEvictCase(in)
 	w := evict.NewWorld(spec)
 	got := encNodes(w.Ssn)
 	runActionList(w, spec.Actions)
@@ -89,7 +195,7 @@ func runEvictCycle(in []int64) ([]int64, []int64) {
 		}
 	}
 	lastEvictLaw = lin
-	return spec.Enc(), got
+	return encEvictCase(spec), got
 }
 
 func evictLaws(law func(lsel int, lin []int64, sig string)) {
@@ -213,6 +319,6 @@ func genEvict(rng *vh.Rng, n int, emit func(id string, sel int, in []int64, kind
 		}
 		kind := fmt.Sprintf("evict/staged=%v/actions=%v", staged, spec.Actions)
 		desc := map[string]any{"nodes": len(spec.Nodes), "jobs": len(spec.Jobs), "tasks": len(spec.Tasks), "pending": pend, "evictable": victims, "tiers": spec.Tiers}
-		emit(fmt.Sprintf("evict-%d", i), 4, spec.Enc(), kind, pend >= 2 && victims >= 2, desc)
+		emit(fmt.Sprintf("evict-%d", i), 4, encEvictCase(spec), kind, pend >= 2 && victims >= 2, desc)
 	}
 }
